@@ -7,6 +7,7 @@ import DadiVerif.Generated.Admix
 import DadiVerif.Generated.DemesProg
 import DadiVerif.Lemmas.DemesProgWiring
 import DadiVerif.Lemmas.DemesProgParams
+import DadiVerif.Lemmas.DemesProgCompute
 /-!
 # C16 — demes graphs vs native dadi models: units, wiring, order, export
 
@@ -963,5 +964,69 @@ example :
     ∧ ((Gen.DemesProg.getIntegrationParameters exGraph exDp [] (some 50)).map fun q => (evalParams id id (fun x _ => x) (1/2) q).1) = some [[2], [2, 8/5]]
     ∧ ((Gen.DemesProg.getIntegrationParameters exGraph exDp [] (some 50)).map fun q => (q.2.1, q.2.2.1)) = some ([[[0]], [[0, 0], [1, 0]]], [0, 1/5]) := by
   decide +kernel
+
+/-! ### the generated programs are the hand-written composition -/
+
+/-- the four facts about generated one-liners of `Generated/Demes.lean` the closed forms rest on (their text) -/
+theorem demePresent_text : ∀ s e i0 i1 : ETime, demePresent s e i0 i1 = (tge s i0 && tle e i1) := fun _ _ _ _ => rfl
+theorem marginalizeCond_text : ∀ (sp : List DName) (d : DName) (e : ETime) (ss : List ETime),
+    marginalizeCond sp d e ss = ((!sp.contains d) && ((ss.length == 0) || (ss.all fun s => (!tle s e)))) := fun _ _ _ _ => rfl
+theorem migEntry_text : ∀ Ne m : ℚ, migEntry Ne m = (2 * Ne) * m := fun _ _ => rfl
+
+/-- **`_get_demographic_events` = the model's `demesPresent` and `demoEvents`.**  For a graph with distinct deme names the generated program
+    raises unless exactly one deme starts at `inf`; otherwise it returns two dicts such that: a read `demo_events[t]` gives the events of
+    `demoEvents` at `t` in its order; `sorted(demes_present.items())[::-1]` (what `_get_integration_parameters` iterates over) is
+    `demesPresent g` with the demes replaced by their names, `sorted(list(demes_present.keys()))[::-1]` (`integration_intervals` of
+    `_compute_sfs`) its intervals; a read `demes_present[iv]` gives the names of `liveIn g iv` for an integration interval. -/
+theorem C16_source_events (g : Graph InEpoch) (hnd : (g.demes.map (·.name)).Nodup) (lib : LibEvents) (sp : List DName) :
+    Gen.DemesProg.getDemographicEvents g lib sp
+        = (if (g.demes.any fun d => decide (d.start = none)) && ((g.demes.filter fun d => decide (d.start = none)).length == 1)
+           then some (evOf g lib sp, presOf g) else none)
+    ∧ (∀ t, ddGet (evOf g lib sp) t = eventsAt (demoEvents g lib.toList sp) t)
+    ∧ pySortedItemsDesc (presOf g) = (demesPresent g).map (fun p => (p.1, p.2.map (·.name)))
+    ∧ pySortedKeysDesc (ddKeys (presOf g)) = (demesPresent g).map (·.1)
+    ∧ ∀ iv, ddGet (presOf g) iv = if iv ∈ intervals g then (liveIn g iv.1 iv.2).map (·.name) else [] := by
+  rw [C16_source_demographic_events]
+  exact getDemographicEventsRef_spec demePresent_text marginalizeCond_text g hnd lib sp
+
+/-- non-vacuity: `exGraph` with its split -/
+example : (exGraph.demes.map (·.name)).Nodup
+    ∧ pySortedItemsDesc (presOf exGraph) = [((none, some 20), [⟨0, []⟩]), ((some 20, some 0), [⟨1, []⟩, ⟨2, []⟩])] := by
+  decide +kernel
+
+/-- **`_get_integration_parameters` = one `paramRow` per interval**, in the order of `sorted(demes_present.items())[::-1]`: `T` by `intTime`,
+    `freeze` by membership in the frozen list, the size closures of `_make_nu_func` on the sizes `_sizes_at_time` finds, and the matrix
+    `migMatrix` (entry `[i][j]` = `2 Ne ·` rate of the migration from deme j into deme i) — the row `planRow` of the model;
+    it raises exactly when `_get_root_Ne`, a `_sizes_at_time` or `_make_nu_func` does. -/
+theorem C16_source_parameters (g : Graph InEpoch) (dp : PyDD (ETime × ETime) DName) (fz : List DName) (Ne : Option ℚ) :
+    Gen.DemesProg.getIntegrationParameters g dp fz Ne
+      = (neOf g Ne).bind fun Ne => ((pySortedItemsDesc dp).mapM (paramRow g fz Ne)).map fun rows =>
+          (rows.map (·.2.2.1), rows.map (·.2.2.2), rows.map (·.1), rows.map (·.2.1)) := by
+  rw [C16_source_integration_parameters]
+  exact getIntegrationParametersRef_eq (by decide) migEntry_text g dp fz Ne
+
+/-- **`_apply_event`, event kind by event kind** (`applyEventSpec`): the calls appended to the history and the populations afterwards -/
+theorem C16_source_event {ν : Type} (phi : Trace ν) (ids : List DName) (e : DEvt) (t : ETime) (dp : PyDD (ETime × ETime) DName) :
+    Gen.DemesProg.applyEvent phi ids e t dp = (applyEventSpec ids e).map fun r => (phi ++ r.1, r.2) := by
+  rw [C16_source_apply_event]
+  exact applyEventRef_eq phi ids e t dp
+
+/-- a merger of the demes on axes 0 and 2 of four: the child is appended, then the parents are removed one by one -/
+example : applyEventSpec (ν := ℕ) [⟨0, []⟩, ⟨1, []⟩, ⟨2, []⟩, ⟨3, []⟩] (DEvt.merge [⟨0, []⟩, ⟨2, []⟩] [1/4, 3/4] ⟨4, []⟩)
+    = some ([PCall.admixNew [1/4, 3/4] [⟨0, []⟩, ⟨1, []⟩, ⟨2, []⟩, ⟨3, []⟩] [⟨0, []⟩, ⟨2, []⟩] [⟨0, []⟩, ⟨1, []⟩, ⟨2, []⟩, ⟨3, []⟩, ⟨4, []⟩],
+             PCall.removePop 1, PCall.removePop 2], [⟨1, []⟩, ⟨3, []⟩, ⟨4, []⟩]) := by
+  decide +kernel
+
+/-- **The whole import (the tail of `SFS`) = the hand-written composition `importCF`**: for a graph with distinct deme names, the history of
+    `phi` the generated program produces — `phi_1D` with the root's relative size, then per interval of `demesPresent g` the integration with
+    the row of `paramRow` (keywords bound as `C16_integrate_wiring` says), the events of `demoEvents` at the interval's end applied as
+    `applyEventSpec` says, the reordering to the next interval's deme order, finally `reorder_pops` to the order of `sampled_pops` and
+    `from_phi` — is `importCF`, a function of `demesPresent`, `demoEvents`, `intTime`, `migMatrix`, `freezeFlags`, the size terms and the
+    generated call table; it raises exactly when `importCF` is `none`. -/
+theorem C16_source_import (g : Graph InEpoch) (hnd : (g.demes.map (·.name)).Nodup) (lib : LibEvents) (sp fz : List DName) (Ne : Option ℚ)
+    (θ : ℚ) (γ η : Option ℚ) :
+    Gen.DemesProg.sfsImport lib g sp fz Ne θ γ η = importCF g lib sp fz Ne θ γ η := by
+  rw [C16_source_sfs]
+  exact sfsImportRef_eq demePresent_text marginalizeCond_text (by decide) migEntry_text g hnd lib sp fz Ne θ γ η
 
 end DadiVerif
